@@ -508,6 +508,11 @@ pub fn finish(ctx: &Ctx, level: &str, rule: &str, exhaustive: bool, states: Opti
         let _ = std::fs::create_dir_all(format!("{}/evidence", VERIF));
         let path = format!("{}/evidence/{}.json", VERIF, ctx.prop);
         std::fs::write(&path, serde_json::to_string_pretty(&ev).unwrap()).expect("write evidence");
+        // the deeper tier's record is kept separately as well (the file above is rewritten by every run)
+        if ctx.tier.name() == "thorough" {
+            let _ = std::fs::create_dir_all(format!("{}/evidence-thorough", VERIF));
+            let _ = std::fs::write(format!("{}/evidence-thorough/{}.json", VERIF, ctx.prop), serde_json::to_string_pretty(&ev).unwrap());
+        }
     }
     println!(
         "{} tier={} evaluations={} distinct_nontrivial={} violations={} known={} wall={:.1}s",
